@@ -8,6 +8,23 @@
 From AL Require Import Base.Str Wf.Scalars Wf.ScalarsProofs Wf.ScalarExit.
 From Coq Require Import ZArith.
 
+(* every value parser at once: for every well-formed node, none of them
+   panics ([np m] is [forall s, m <> Panic s]); the single statements follow *)
+Theorem C01_scalar_parsers_no_panic : forall n, wf_node n -> all_scalar_parsers_safe n.
+Proof. exact scalar_parsers_no_panic. Qed.
+Print Assumptions C01_scalar_parsers_no_panic.
+
+Theorem C01_scalar_parsers_no_panic_old_refuted :
+  exists n, wf_node n /\ ~ (forall s, parse_timeout_minutes_old n <> Panic s).
+Proof. exact scalar_parsers_no_panic_old_refuted. Qed.
+Print Assumptions C01_scalar_parsers_no_panic_old_refuted.
+
+(* hypotheses satisfiable by a non-trivial node: a sequence holding a scalar,
+   an alias and the NaN scalar *)
+Theorem C01_wf_node_example : wf_node example_seq.
+Proof. exact example_seq_wf. Qed.
+Print Assumptions C01_wf_node_example.
+
 (* scalar_parsers_no_panic: for every well-formed node — every kind, every
    tag, any text, any result of strconv.Atoi / strconv.ParseFloat — no value
    parser panics *)
